@@ -13,7 +13,7 @@ verus! {
 //@INCLUDE shims/strings.rs
 //@INCLUDE shims/mask_items.rs
 
-broadcast use {pat_prefix_str, pat_suffix_str, pat_contains_str, str_len_fits, str_ends_are_boundaries, occurrence_boundaries, utf8_injective_b, lemma_nested_occurrence, lemma_after_first, utf8_ends_are_boundaries};
+broadcast use {pat_prefix_ascii_char, pat_prefix_str, pat_suffix_str, pat_contains_str, str_len_fits, str_ends_are_boundaries, occurrence_boundaries, utf8_injective_b, lemma_nested_occurrence, lemma_after_first, utf8_ends_are_boundaries};
 
 impl request::Request {
     // get_url: the lower-cased URL unless the rule is case-sensitive (extracted verbatim below)
@@ -390,6 +390,11 @@ pub open spec fn once(u: Seq<u8>, h: Seq<u8>) -> bool {
 //@ ENDAFTER
 //@END
 
+// "the request hostname or one of its subdomains": the request hostname IS the rule's host, or ends with it right after a '.'
+pub open spec fn host_tail(h: Seq<u8>, fh: Seq<u8>) -> bool {
+    h.len() == fh.len() || (has_suffix(h, fh) && fh.len() < h.len() && ((fh.len() > 0 && fh[0] == 46u8) || h[h.len() - fh.len() - 1] == 46u8))
+}
+
 //@EXTRACT src/filters/network_matchers.rs :: fn check_pattern_hostname_right_anchor_filter
 //@ RET r
 //@ SAFETY C02.match.host_right.safety
@@ -402,7 +407,7 @@ pub open spec fn once(u: Seq<u8>, h: Seq<u8>) -> bool {
         r == (hostname is Some
               && anchored_spec(hostname.unwrap().spec_bytes(), sb(request.hostname), mask.has(NetworkFilterMask::IS_HOSTNAME_REGEX))
               && (if filters.remaining().len() == 0 {
-                      sb(request.hostname).len() == hostname.unwrap().spec_bytes().len() || has_suffix(sb(request.hostname), hostname.unwrap().spec_bytes())
+                      host_tail(sb(request.hostname), hostname.unwrap().spec_bytes())
                   } else {
                       exists|i: int| 0 <= i < filters.remaining().len() && ends_pat(req_url(*request, mask), (#[trigger] filters.remaining()[i]).spec_bytes())
                   })), // OBL C02.match.host_right
@@ -412,7 +417,7 @@ pub open spec fn once(u: Seq<u8>, h: Seq<u8>) -> bool {
 //@ WITH
     request.hostname.as_str(),
 //@ ENDSUBST
-//@ SUBST R6
+//@ SUBST R6*
     request.hostname.len()
 //@ WITH
     request.hostname.as_str().len()
@@ -421,6 +426,16 @@ pub open spec fn once(u: Seq<u8>, h: Seq<u8>) -> bool {
     request.hostname.ends_with(hostname)
 //@ WITH
     request.hostname.as_str().ends_with(*hostname)
+//@ ENDSUBST
+//@ SUBST R6
+    hostname.starts_with('.')
+//@ WITH
+    (*hostname).starts_with('.')
+//@ ENDSUBST
+//@ SUBST R6
+    request.hostname.as_bytes()
+//@ WITH
+    request.hostname.as_str().as_bytes()
 //@ ENDSUBST
 //@END
 
